@@ -15,7 +15,8 @@ EXPLANATION = ("Backtrace ring. R1 (ring invariant 'size < capacity => _index ==
                "and clears afterwards on every path. R3: store() appends while size < capacity, otherwise overwrites slot _index and "
                "advances it with wrap at capacity - 1."
                " R4d: the data() pointer of an event's formatted text never travels without its length (the buffer is reused and has no terminator)."
-               " R5t (= C03.R4t): copy_to, the ring's way of storing a statement, carries every member across, the text included.")
+               " R5t (= C03.R4t): copy_to, the ring's way of storing a statement, carries every member across, the text included."
+               ' R2k: each replayed statement is dispatched under its own catch-all that does not rethrow, so a throwing sink loses that statement only and the ring is cleared after the replay.')
 NOT_DECIDED = ("'exactly min(capacity, stored)' as a count over all histories and the interleaving of several threads/loggers "
                "(behavioural); capacity 0 (noted).")
 ASSUMPTIONS = ["BacktraceStorage is used by the backend thread only"]
